@@ -142,13 +142,6 @@ def conduct_steps(hist):
                 steps.append({"k": "bpsend", "broker": BIDX[h["broker"]], "req": nreq,
                               "ids": {str(PIDX[p]): v for p, v in h["ids"].items() if v}})
                 skip_recv.add(key)
-            elif h.get("rollempty") and not h["busy"]:
-                # the code forces the EMPTY buffer out before it takes the message (spec/Producer.tla, BpRecvRollsEmpty): an empty
-                # produce request makes a round trip that the model does not have
-                nreq += 1
-                plans[str(nreq)] = {"hold": True, "part": {}}
-                steps += [{"k": "bpsend", "broker": BIDX[h["broker"]], "req": nreq, "ids": {}}, {"k": "handle", "req": nreq},
-                          {"k": "bpresp", "broker": BIDX[h["broker"]], "err": False}]
         elif a in ("bpsend", "rbsend"):
             nreq += 1
             outstanding[h["bp"]] = nreq
